@@ -1021,9 +1021,15 @@ class C19(Prop):
             if k == "list:int" or (k == "list:" and True):
                 return f"LI {len(v)}" + "".join(f" {x}" for x in v) if k == "list:int" else "LS 0"
             if k == "list:str":
-                # Python repr of non-ASCII characters needs the Unicode database: not modelled
+                if not all(lean_ok_str(s) for s in v):
+                    return None
                 if all(all(ord(ch) < 128 for ch in s) for s in v):
                     return f"LS {len(v)}" + "".join(" " + enc(s) for s in v)
+                # Python repr of non-ASCII characters needs the Unicode database (`str.isprintable`): the
+                # model takes the non-printable characters that occur as a parameter (`pyRepr np`)
+                np = sorted({ch for s in v for ch in s if ord(ch) > 127 and not ch.isprintable()})
+                return (f"LU {len(np)}" + "".join(" %x" % ord(ch) for ch in np) + f" {len(v)}"
+                        + "".join(" " + enc(s) for s in v))
         return None
 
     @staticmethod
